@@ -32,7 +32,7 @@ package dns
 //@   ensures isdig(s[0]) && isdig(s[1]) && isdig(s[2]) ==> ret0 == ((s[0] - '0') * 100 + (s[1] - '0') * 10 + (s[2] - '0')) % 256
 //@   pure
 
-//@ func IsDomainName [C03]
+//@ func IsDomainName [C03 C19:rootcnt]
 //@   apply at "if off+1 > lenmsg" ns_over(s, i, i - begin, off, wasDot, labels)
 //@   ensures empty: len(s) == 0 ==> !ok
 //@   ensures valid: IsFqdnSpec(s) ==> ok == (namescan(s, 0, 0, 0, false, 0) >= 0)
@@ -40,6 +40,8 @@ package dns
 // a name is valid only if its qualified form (the local s after s = Fqdn(s)) really is fully qualified: a name that
 // ends in a dangling backslash escapes the dot that Fqdn appends and has no wire form (callres: the qualified name)
 //@   exit dangle: ok ==> IsFqdnSpec(callres("Fqdn"))
+// C19: the label count agrees with the wire format, in which the root name has no label (CountLabel(".") == 0)
+//@   ensures rootcnt: len(s) == 1 && s[0] == '.' && ok ==> labels == 0 [C19]
 //@   loop 1 invariant 0 <= i && 0 <= begin && begin <= i && 0 <= off && off <= begin && 0 <= labels && len(s) > 0
 //@   loop 1 invariant rest: namescan(s, 0, 0, 0, false, 0) == namescan(s, i, i - begin, off, wasDot, labels)
 //@   loop 1 invariant unesc: i <= len(s) + 1 && (i == len(s) + 1 ==> s[len(s)-1] == '\\') && (i < len(s) ==> !escd(s, i))
